@@ -394,7 +394,17 @@ static Outcome runStartup(const KV& c)
         f->setup();
         f->solve();
         auto einf = f->exactErrorInfinity();
-        if (einf.has_value() && f->numberOfIterations() < 60) {
+        // The statement's "already has discretisation-level accuracy" is the full-multigrid theorem; its hypothesis is
+        // that the start-up cycles reduce the error by more than the factor 4 by which the discretisation error grows
+        // from one level to the next coarser one: rho^its < 1/4. Configurations whose measured mean reduction factor
+        // does not satisfy it (e.g. the across-origin closure with a hole that is not tiny, rho ~ 0.67) are counted,
+        // not judged (DESIGN.md 10.1).
+        const double rho = f->meanResidualReductionFactor();
+        const bool theorem_applies = einf.has_value() && f->numberOfIterations() < 60 && f->numberOfIterations() >= 2 &&
+                                     std::isfinite(rho) && std::pow(rho, cfg.fmg_its) <= 0.2;
+        if (einf.has_value() && f->numberOfIterations() < 60 && !theorem_applies)
+            o.cls("accuracy_outside_fmg_theorem");
+        if (theorem_applies) {
             o.mx("start_error_over_discretisation_error", estart / std::max(*einf, 1e-300));
             o.cls("accuracy_judged");
             if (estart > 30 * (*einf) + 1e-9) {
